@@ -894,7 +894,7 @@ func errMergeOf(b *ssa.BasicBlock) *errMerge {
 			nilSucc = 1
 		}
 		em := &errMerge{}
-		for _, ev := range e.Edges {
+		for i, ev := range e.Edges {
 			k := -1
 			switch x := rawStrip(ev).(type) {
 			case *ssa.Const:
@@ -905,6 +905,9 @@ func errMergeOf(b *ssa.BasicBlock) *errMerge {
 				if sc := x.Call.StaticCallee(); sc != nil && (sc.String() == "fmt.Errorf" || sc.String() == "errors.New") {
 					k = 1 - nilSucc
 				}
+			}
+			if k < 0 && i < len(b.Preds) && knownNonNilOn(b.Preds[i], ev) {
+				k = 1 - nilSucc
 			}
 			em.succ = append(em.succ, k)
 		}
@@ -931,6 +934,52 @@ func errMergeOf(b *ssa.BasicBlock) *errMerge {
 		out = em
 	}
 	return out
+}
+
+// knownNonNilOn: block pb (a predecessor of a merge) is entered only over the `v != nil` edge of a test of v — the
+// `if err != nil { return err }` shape of an expanded helper.
+func knownNonNilOn(pb *ssa.BasicBlock, v ssa.Value) bool {
+	for hops := 0; hops < 3 && pb != nil; hops++ {
+		if len(pb.Preds) != 1 {
+			return false
+		}
+		pp := pb.Preds[0]
+		if len(pp.Instrs) == 0 {
+			return false
+		}
+		if iff, ok := pp.Instrs[len(pp.Instrs)-1].(*ssa.If); ok {
+			cmp, ok := iff.Cond.(*ssa.BinOp)
+			if !ok || (cmp.Op != token.EQL && cmp.Op != token.NEQ) {
+				return false
+			}
+			for _, pr := range [][2]ssa.Value{{cmp.X, cmp.Y}, {cmp.Y, cmp.X}} {
+				if c, isC := rawStrip(pr[1]).(*ssa.Const); isC && c.Value == nil {
+					x := rawStrip(pr[0])
+					if ld, isLd := x.(*ssa.UnOp); isLd && ld.Op == token.MUL {
+						if src := LoadSource(ld); src != nil {
+							x = rawStrip(src)
+						}
+					}
+					y := rawStrip(v)
+					if ld, isLd := y.(*ssa.UnOp); isLd && ld.Op == token.MUL {
+						if src := LoadSource(ld); src != nil {
+							y = rawStrip(src)
+						}
+					}
+					if x == y {
+						nonNilSucc := 0
+						if cmp.Op == token.EQL {
+							nonNilSucc = 1
+						}
+						return pp.Succs[nonNilSucc] == pb
+					}
+				}
+			}
+			return false
+		}
+		pb = pp
+	}
+	return false
 }
 
 // mergePhiOf returns the phi the block's test depends on (error or boolean form).
